@@ -28,6 +28,9 @@ type Loader struct {
 	mu     sync.RWMutex
 	cache  map[string]parsedFile
 	limits Limits
+	// generation counts invalidations: a file read before an invalidation
+	// must not be cached after it.
+	generation uint64
 }
 
 type parsedFile struct {
@@ -66,6 +69,7 @@ func (l *Loader) SetLimits(limits Limits) {
 	if limits != l.limits {
 		// cached files were admitted under the old limits
 		l.cache = make(map[string]parsedFile)
+		l.generation++
 	}
 	l.limits = limits
 }
@@ -237,6 +241,7 @@ func (l *Loader) loadSingleInclude(
 
 	l.mu.RLock()
 	cached, ok := l.cache[includePath]
+	generation := l.generation
 	l.mu.RUnlock()
 	if ok {
 		// A cached file is only a cached parse: its own includes are still
@@ -290,7 +295,9 @@ func (l *Loader) loadSingleInclude(
 
 	if subResult != nil && subResult.Primary != nil {
 		l.mu.Lock()
-		l.cache[includePath] = parsed
+		if l.generation == generation {
+			l.cache[includePath] = parsed
+		}
 		l.mu.Unlock()
 		result.Files[includePath] = subResult.Primary
 		result.FileOrder = append(result.FileOrder, includePath)
@@ -336,10 +343,12 @@ func (l *Loader) ClearCache() {
 	l.mu.Lock()
 	defer l.mu.Unlock()
 	l.cache = make(map[string]parsedFile)
+	l.generation++
 }
 
 func (l *Loader) InvalidateFile(path string) {
 	l.mu.Lock()
 	defer l.mu.Unlock()
 	delete(l.cache, path)
+	l.generation++
 }
